@@ -4,10 +4,13 @@
 -/
 import CimbaModel.Sim.Basic
 import CimbaModel.HashHeap.Orders
+import CimbaModel.Sim.S3Cond
+import CimbaModel.Sim.S3All
 
 namespace CimbaModel.Props.C13
 open CimbaModel CimbaModel.Sim CimbaModel.Event CimbaModel.Generated CimbaModel.HashHeap.SpecOrders
-open CimbaModel.HashHeap (HTag Item Order HH)
+open CimbaModel.HashHeap (HTag Item Order HH WF abs liveTags)
+open CimbaModel.Sim.S3 CimbaModel.KPQ
 
 /-- the scenario-level predicates of condition waiters evaluate the documented state queries -/
 theorem cond_predicates (w : World) (a b : Nat) :
@@ -15,5 +18,157 @@ theorem cond_predicates (w : World) (a b : Nat) :
     (∀ x, w.res[a]? = some x → (evalDemand w (.cond 1 a b) = true ↔ x.holder = none)) ∧
     (∀ x, w.bufs[a]? = some x → (evalDemand w (.cond 3 a b) = true ↔ b ≤ x.level)) := by
   refine ⟨by simp [evalDemand], ?_, ?_⟩ <;> intro x hx <;> simp [evalDemand, hx, Option.isNone_iff_eq_none]
+
+
+/-! ### `cmb_condition_signal`
+
+`condSat w gd` = the entries of the condition's waiting list, in heap-array order, whose predicate is true in `w`;
+`condWakes w sat` = one wake-up (aCond, key, SUCCESS, the waiter's current priority) per element; `wakeEvs c t l` = the
+pending-list segment obtained by scheduling `l` in order at time `t` after handle `c` (handles c+1, c+2, …). -/
+
+/-- `signal_exact`: with `sat` = the waiters whose predicate is true at this moment (heap-array order), the condition
+    signal schedules exactly one (aCond, SUCCESS) wake-up at the current time per element of `sat`, in that order, with
+    the waiter's current priority; exactly those entries leave the queue — the others stay queued (`abs q'` is a
+    permutation of the unsatisfied ones) —, nothing else changes, and the return value says whether anybody was woken -/
+theorem signal_exact {w : World} {g : Nat} {gd : Guard} (hg : w.guards[g]? = some gd) (hwf : WF guard_queue_check gd.q)
+    (hc : gd.q.count ≠ 0) :
+    ∃ q', WF guard_queue_check q' ∧
+      (abs q').Perm ((abs gd.q).filter fun x => !evalDemand w (demandOf gd x.key)) ∧
+      condSignal w g = (setGuardQ (pushAll w (condWakes w (condSat w gd))) g q', decide ((condSat w gd).length > 0)) :=
+  condSignal_spec hg hwf hc
+
+/-- spelled out: the event queue afterwards is the batch on top of the old pending events; clock, processes, objects,
+    event waiters, fault flag and every other guard are untouched -/
+theorem signal_exact_events {w : World} {g : Nat} {gd : Guard} (hg : w.guards[g]? = some gd)
+    (hwf : WF guard_queue_check gd.q) (hc : gd.q.count ≠ 0) :
+    (condSignal w g).1.ev.pending = wakeEvs w.ev.counter w.now (condWakes w (condSat w gd)) ++ w.ev.pending ∧
+    (condSignal w g).1.now = w.now ∧ (condSignal w g).1.procs = w.procs ∧ (condSignal w g).1.fault = w.fault ∧
+    (condSignal w g).1.res = w.res ∧ (condSignal w g).1.pools = w.pools ∧ (condSignal w g).1.bufs = w.bufs ∧
+    (condSignal w g).1.oqs = w.oqs ∧ (condSignal w g).1.pqs = w.pqs ∧ (condSignal w g).1.flags = w.flags ∧
+    (condSignal w g).1.evWaiters = w.evWaiters ∧
+    ∀ g', g' ≠ g → (condSignal w g).1.guards[g']? = w.guards[g']? :=
+  condSignal_pending hg hwf hc
+
+/-- who is in `sat`: exactly the live entries whose predicate is true now -/
+theorem sat_iff {w : World} {gd : Guard} {t : HTag} :
+    t ∈ condSat w gd ↔ t ∈ liveTags gd.q ∧ evalDemand w (demandOf gd t.key) = true := mem_condSat
+
+/-- every wake-up of the batch: handle after the old counter, time = now, action aCond, success code, addressed to a
+    satisfied waiter with its current priority; and there are exactly `sat.length` of them, subjects in `sat` order
+    (the pending list is latest first) -/
+theorem batch_events {w : World} {gd : Guard} :
+    (∀ e ∈ wakeEvs w.ev.counter w.now (condWakes w (condSat w gd)),
+      w.ev.counter < e.key ∧ e.d = w.now ∧
+      ∃ t ∈ condSat w gd, e = mkEv e.key aCond (t.key - 1 + 1) sigSuccess w.now (w.proc (t.key - 1)).prio) ∧
+    (wakeEvs w.ev.counter w.now (condWakes w (condSat w gd))).length = (condSat w gd).length ∧
+    (wakeEvs w.ev.counter w.now (condWakes w (condSat w gd))).map (·.item.b) =
+      ((condSat w gd).map fun t => t.key - 1 + 1).reverse := by
+  refine ⟨?_, by simp [condWakes], ?_⟩
+  · intro e he
+    obtain ⟨hlo, _, hd, _, x, hx, heq⟩ := wakeEvs_props he
+    simp only [condWakes, List.mem_map] at hx
+    obtain ⟨t, ht, rfl⟩ := hx
+    exact ⟨hlo, hd, t, ht, heq⟩
+  · rw [wakeEvs_subjs]; simp [condWakes, List.map_map, Function.comp_def]
+
+/-- a signal on an empty condition (or on a condition that does not exist) does nothing and returns false -/
+theorem signal_empty {w : World} {g : Nat} :
+    (w.guards[g]? = none → condSignal w g = (w, false)) ∧
+    (∀ gd, w.guards[g]? = some gd → gd.q.count = 0 → condSignal w g = (w, false)) :=
+  ⟨condSignal_none, fun _ hg hc => condSignal_empty hg hc⟩
+
+/-! ### cancel and remove -/
+
+/-- `cmb_condition_remove`: exactly the named process leaves the queue (`KPQ.remove`), without a wake-up; the return
+    value says whether it was queued -/
+theorem remove_exact {w : World} {p q : Pid} {c g : Nat} {gd : Guard} (hc : w.conds[c]? = some g)
+    (hg : w.guards[g]? = some gd) (hwf : WF guard_queue_check gd.q) (hq : q < w.procs.size) :
+    ∃ q', WF guard_queue_check q' ∧ (abs q').Perm (KPQ.remove (abs gd.q) (q + 1)) ∧
+      execCmd w p (.condRemove c q) =
+        (setGuardQ w g q', .ret (if q + 1 ∈ keys (abs gd.q) then 1 else 0) "") := by
+  obtain ⟨q', _, hwf', hperm, heq⟩ := guardRemove_spec hg hwf q
+  refine ⟨q', hwf', hperm, ?_⟩
+  have : ¬ q ≥ w.procs.size := Nat.not_le.2 hq
+  simp only [execCmd, hc, this, if_false, heq]
+  by_cases hk : q + 1 ∈ keys (abs gd.q) <;> simp [hk]
+
+/-- `cmb_condition_cancel`: exactly the named process leaves the queue and, if it was queued, is resumed with the
+    CANCELLED code by an (aRes) wake-up at the current time with its current priority; the return value says whether
+    it was queued -/
+theorem cancel_exact {w : World} {p q : Pid} {c g : Nat} {gd : Guard} (hc : w.conds[c]? = some g)
+    (hg : w.guards[g]? = some gd) (hwf : WF guard_queue_check gd.q) (hq : q < w.procs.size) :
+    ∃ q', WF guard_queue_check q' ∧ (abs q').Perm (KPQ.remove (abs gd.q) (q + 1)) ∧
+      execCmd w p (.condCancel c q) =
+        (if q + 1 ∈ keys (abs gd.q) then
+           (pushEv (setGuardQ w g q') aRes (q + 1) sigCancelled w.now (w.proc q).prio, .ret 1 "")
+         else (setGuardQ w g q', .ret 0 "")) := by
+  obtain ⟨q', _, hwf', hperm, heq⟩ := guardRemove_spec hg hwf q
+  refine ⟨q', hwf', hperm, ?_⟩
+  have : ¬ q ≥ w.procs.size := Nat.not_le.2 hq
+  simp only [execCmd, hc, this, if_false, heq]
+  by_cases hk : q + 1 ∈ keys (abs gd.q)
+  · simp only [hk, decide_true, if_true]
+    have := sched_now (setGuardQ w g q') aRes (q + 1) sigCancelled ((setGuardQ w g q').proc q).prio
+    rw [this]; rfl
+  · simp [hk]
+
+/-- the entry of the named process is gone afterwards, every other entry is still there -/
+theorem remove_takes_exactly {q q' : KPQ} {k : Nat} (h : q'.Perm (KPQ.remove q k)) (t : HTag) :
+    t ∈ q' ↔ t ∈ q ∧ t.key ≠ k := by
+  rw [h.mem_iff]; exact mem_remove
+
+/-! ### forwarded signals — what the model (and the library) does
+
+KNOWN FINDING (not claimed as a property): a signal *forwarded* from an observed guard is a plain guard signal of the
+observer: `guardSignal` on `g` performs its own front step and then `guardSignal` — not `condSignal` — on every observer,
+so on an observing condition only the front waiter's predicate is evaluated. -/
+
+theorem forwarded_is_plain_signal (fuel : Nat) (w : World) (g : Nat) (gd : Guard) (hg : w.guards[g]? = some gd) :
+    guardSignal (fuel + 1) w g = gd.observers.foldl (fun w o => guardSignal fuel w o) (frontStep w g gd) := by
+  rw [guardSignal_succ, hg]
+
+/-- so a condition registered as an observer is signalled (as a guard) whenever the observed list is signalled: with one
+    observer `o`, the signal of `g` is the signal of `o` applied after `g`'s own front step -/
+theorem observer_signalled (fuel : Nat) (w : World) (g o : Nat) (gd : Guard) (hg : w.guards[g]? = some gd)
+    (ho : gd.observers = [o]) :
+    guardSignal (fuel + 1) w g = guardSignal fuel (frontStep w g gd) o := by
+  rw [forwarded_is_plain_signal fuel w g gd hg, ho]; rfl
+
+/- non-vacuity: a world with a condition whose well-formed queue holds a waiter (key 3 = process 2) exists -/
+example : ∃ (w : World) (gd : Guard), w.conds[0]? = some 0 ∧ w.guards[0]? = some gd ∧ WF guard_queue_check gd.q ∧
+    gd.q.count ≠ 0 ∧ 3 ∈ keys (abs gd.q) := by
+  obtain ⟨s0, _, hwf0, habs0, _, hexp, _⟩ := HashHeap.init_spec (lt := guard_queue_check) 3 (by decide) (by decide)
+  have hc0 : s0.count = 0 := by rw [← HashHeap.abs_length, habs0]; rfl
+  obtain ⟨s1, _, hwf1, hperm, _⟩ := HashHeap.enqueue_abs hwf0 ⟨3, 0, 0, 0⟩ 3 0 0 (by simp) (by simp)
+    (by rw [habs0]; simp [keys]) (Or.inl (by rw [hc0]; exact HashHeap.two_pow_pos _))
+  refine ⟨{ guards := #[{ q := s1, isCond := true }], conds := #[0] }, { q := s1, isCond := true }, rfl, rfl, hwf1, ?_, ?_⟩
+  · have : 0 < s1.count := by rw [← HashHeap.abs_length, hperm.length_eq]; simp [KPQ.insert]
+    exact Nat.pos_iff_ne_zero.1 this
+  · have : (⟨3, 0, ⟨3, 0, 0, 0⟩, 0, 0⟩ : HTag) ∈ abs s1 := hperm.mem_iff.2 (by simp [KPQ.insert, norm])
+    exact List.mem_map.2 ⟨_, this, rfl⟩
+
+
+/-! ### in every reachable state
+
+`AllInv` (Props/C04, Sim/S3All) is an invariant of `dispatch`; its clauses give the hypotheses of the theorems above and
+the ownership of condition wake-ups: -/
+
+theorem cond_lists_wellformed {w0 w : World} (hr : Reach w0 w) (h0 : AllInv w0) (g : Nat) (gd : Guard)
+    (hg : w.guards[g]? = some gd) : WF guard_queue_check gd.q := (h0.reach hr).g.gw g gd hg
+
+/-- a pending condition wake-up is addressed to a process suspended in `cond_wait` that still awaits the condition's
+    guard, is already off its waiting list, and has no second wake-up / grant pending -/
+theorem cond_wakeup_owned {w0 w : World} (hr : Reach w0 w) (h0 : AllInv w0) {e : HTag} (he : e ∈ w.ev.pending)
+    (ha : e.item.a = aCond) :
+    (∃ c, (w.proc (e.item.b - 1)).blocked = some (.condWait c)) ∧
+    ∃ p g f, e.item.b = p + 1 ∧ (w.proc p).blocked = some f ∧ FrameOn w f g ∧ guardAw w p = [.guard g] ∧
+      ¬ queued w g (p + 1) ∧ (∀ g', ¬ queued w g' (p + 1)) ∧
+      ∀ e' ∈ w.ev.pending, isGrant e' → e'.item.b = p + 1 → e' = e :=
+  ⟨(h0.reach hr).g.cond_owned he ha, (h0.reach hr).g.grant_owned he (Or.inr ha)⟩
+
+/-- the waiters of a condition are suspended in `cond_wait` -/
+theorem cond_waiters_in_cond_wait {w0 w : World} (hr : Reach w0 w) (h0 : AllInv w0) {c g k : Nat}
+    (hc : w.conds[c]? = some g) (hq : queued w g k) : ∃ c', (w.proc (k - 1)).blocked = some (.condWait c') :=
+  (h0.reach hr).g.gkc c g hc k hq (noEx_not _)
 
 end CimbaModel.Props.C13
